@@ -115,6 +115,9 @@ impl<Error: Send + 'static> DecodeScheduler<Error> {
 					self.shared.encountered_error.store(true, Ordering::SeqCst);
 					#[cfg(kira_verif)]
 					crate::verif::point("dec.err");
+					// the sound stops as soon as the audio thread sees the error;
+					// there is nothing left to decode
+					break;
 				}
 			}
 		});
